@@ -25,6 +25,8 @@ ctx.unsupported.  Any other dask exception inside the domain is a violation.
 Labels: a failing index is shrunk greedily (entries -> full slice, drop None/Ellipsis, slice fields -> None,
 list -> sorted/positive/unique/shorter, dask/NumPy indexer -> list, chunks -> one chunk per axis) while the
 symptom stays the same; the label is ``<op>:<feature tokens of the minimal index>[&split-chunks][&zero-length-axis]:<symptom>``.
+Family labels (the shrunk forms varied from seed to seed): ``None+int+array-index:raises|wrong-result`` and
+``<index family>&zero-size-chunk:raises|wrong-result`` (a chunk of size 0 inside an axis with several chunks is needed).
 Special symptom ``array-axis-not-moved-first``: the dask result equals the "orthogonal" reading (array applied
 along its own axis after the basic indices) where NumPy moves the broadcast axis to the front because an
 integer and the array are separated by a slice/None.
@@ -93,9 +95,8 @@ PENDING = {
     # DESIGN section 6 #16, second mechanism (None next to an array index; slice_with_newaxes & friends)
     "getitem:None+int-list:AttributeError@array/slicing.py:slice_with_newaxes": "x[None, [0, 1, .., n-1]] (take's arange shortcut returns Alias tasks)",
     "getitem:None+int-list&split-chunks:TypeError@_task_spec.py:__call__": "x[None, [1, 2]] when an output chunk gathers from two input chunks: concatenate_arrays() loses its axis argument",
-    "getitem:None+int+int-list:IndexError@array/slicing.py:slice_with_newaxes": "x[[1], 0, None]: tuple index out of range",
-    "getitem:None+int+array-index:size-1-axis-misplaced": "x[[1, 2], 0, None, 0:2]: computed value has the new axis in the wrong place (lazy shape right) - silent",
-    "getitem:None+int+array-index:shape": "same family (blocks concatenated along the wrong axis / combined with the axis-order difference) - silent",
+    "getitem:None+int+array-index:raises": "x[[1], 0, None]: IndexError tuple index out of range in slice_with_newaxes (also ValueError in concatenate3)",
+    "getitem:None+int+array-index:wrong-result": "x[[1, 2], 0, None, 0:2]: computed value has the new axis in the wrong place (lazy shape right) - silent",
     "getitem:None+dask-int-array:AssertionError@array/slicing.py:slice_with_int_dask_array": "None together with a dask integer indexer: assert len(index) == x.ndim",
     "getitem:None+dask-bool-array:IndexError@array/slicing.py:getitem_variadic": "None together with a 1-d dask boolean indexer",
     # integer + array separated by a slice: NumPy moves the broadcast axis first, dask does not
@@ -112,6 +113,7 @@ PENDING = {
     "getitem:int-or-bool-array&zero-size-chunk:raises": "x[[1]] with chunks (1, 0, 1): take() computes average_chunk_size 0 -> range() arg 3 must not be zero",
     "getitem:dask-index-array&zero-size-chunk:raises": "x[dask_int_or_bool_array] with a zero-size chunk: Missing dependency ... (blockwise skips the empty block)",
     "getitem:dask-index-array&zero-size-chunk:wrong-result": "x[:, dask_bool] with chunks ((1, 0), (6,)): computed shape differs",
+    "getitem:full-shape-mask&zero-size-chunk:wrong-result": "same family",
     "getitem:full-shape-mask&zero-size-chunk:raises": "x[mask] with chunks ((1, 2, 0, 1), ...): cannot reshape array of size 2 into shape (1,)",
     # vindex corner cases
     "vindex:int-array[0d]:TypeError@array/core.py:_vindex_array": "x.vindex[np.array(2)]: len() of a 0-d index array",
@@ -373,20 +375,26 @@ def classify(op, shape, chunks, dtype, enc, bare, sym):
                 n = shape_m[ax]
                 o = evaluate("getitem", (n,), ((n,),), dtype, [e], True)
                 if o.status in ("exc", "mismatch") and o.symptom == sym_m:
-                    op_m, enc_m, shape_m, chunks_m, fixed = "getitem", [e], (n,), ((n,),), False
+                    def probe1(enc2, shape2, chunks2):
+                        o2 = evaluate("getitem", shape2, chunks2, dtype, enc2, True)
+                        return o2.symptom if o2.status in ("exc", "mismatch") else None
+
+                    enc_m, shape_m, chunks_m, sym_m = IX.shrink([e], (n,), ((n,),), probe1, sym_m)
+                    op_m, fixed = "getitem", False
                     break
     toks = IX.tokens(enc_m, shape_m)
     if sym_m == "array-axis-not-moved-first":
         feat = "int&array-index-separated"
-    elif (sym_m in ("size-1-axis-misplaced", "shape", "values") and "None" in toks
-          and any(t in ("int", "int<0", "np-int", "np-int<0") for t in toks)
+    elif ("None" in toks and any(t in ("int", "int<0", "np-int", "np-int<0") for t in toks)
           and any(t.startswith(("int-list", "int-array", "bool-list", "bool-array")) for t in toks)):
-        # None + integer + array index: several interacting defects of slice_with_newaxes give varying shapes
+        # None + integer + array index: several interacting defects of slice_with_newaxes give varying symptoms;
+        # one family, two symptom classes
         feat = "None+int+array-index"
+        sym_m = "wrong-result" if sym_m in MISMATCH_SYMPTOMS else "raises"
     else:
         feat = IX.label_features(enc_m, shape_m, chunks_m, layout=not fixed)
     label = "%s:%s:%s" % (op_m, feat, sym_m)
-    if not fixed and any(0 in c and n > 0 for c, n in zip(chunks_m, shape_m)):
+    if not fixed and IX.zero_chunk_inside(chunks_m):
         # a zero-size chunk inside a non-empty axis is needed by the minimal witness: a family of defects (duplicate
         # chunk boundaries in _slice_1d, average chunk size 0 in take, blockwise over empty blocks ...) whose shrunk
         # forms vary; labelled by index family and symptom class
